@@ -196,8 +196,8 @@ INVARIANT Emit
 """
 
 
-def check(prop, tier, seed):
-    v = Verdict(prop, tier, seed)
+def check(prop, tier, seed, into=None):
+    v = into or Verdict(prop, tier, seed)
     res = run_tlc("CtxMgr", CFG, outfiles=["cases.ndjson"], timeout=600)
     cases = read_ndjson(res["files"]["cases.ndjson"])
     L = tm.load_lib()
